@@ -50,6 +50,12 @@ CLAIMS = {
         'transposed exclusive prefix sum paired with its reshape, stripe offsets copied before the scatter, weights moved with the same cursor and source row, inputs never stored to, all subscripts in bounds.',
    note='Assumed (listed in the evidence): positions in [0,boxsize) so keys are >= 0; cursors stay inside [0,N) by the prefix-sum construction. Not decided: float32 rounding of keys at stripe boundaries; numerical correctness of np.cumsum.',
    design_ref='DESIGN.md section 4, C17'),
+ 'C08': dict(
+   technique='static analysis: linear-integer entailment on fold switches (both mesh parities), monotonicity lattice for early exits and carried search cursors, dominance of range guards, case evaluation of Hermitian weights, ownership of per-thread accumulators',
+   text='Decides the counting skeleton of bin_kmu/bin_kppi for all mesh sizes, edges and thread counts: folded squares equal min(X,n-X)^2, breaks and forward-only cursors only on monotone quantities, every bin search dominated by its range test, '
+        'mode weight 1 on kz=0 and 2kz=n else 2 for counts and all weighted sums alike, per-thread int64 accumulators reduced after the loop, guarded means, monopole = mode-weighted mu-average, loops cover the half mesh once.',
+   note='Assumed: mu^2 <= 1 <= muedges[-1] (docstring). Not decided: membership of modes lying exactly on an edge (float32), Legendre closed form P_n, values of the means.',
+   design_ref='DESIGN.md section 4, C08'),
 }
 _NB = 'rule family not built yet in this session (claimed only once its checker exists; see DESIGN.md section 4)'
 NOT_APPLICABLE = {f'C{n:02d}': _NB for n in range(1, 21) if f'C{n:02d}' not in CLAIMS}
